@@ -46,7 +46,20 @@ def rule_validation_pipeline(ctx, P, r):
             r.fail(inst, func=g.name, sig=f'verify_fragment_metadata result tested with {vfm[0][0]}', loc=vfm[0][4].loc,
                    msg=f'the helper reports "invalid" as 1; the test {vfm[0][:3]} lets that through')
         else:
-            r.fail(inst, func=g.name, sig='verify_fragment_metadata not consulted', loc=g.mod.src, msg='index/backend checks are skipped')
+            # the three tests may sit here directly (a shared static helper, inlined by the build step): idx in [0, k+m), equal
+            # backend id, compatible backend version - each with the exactness R12a asks of the public helper
+            isidx_ = lambda e: bool(re.match(r'^\*arg\d+\.idx$', strip_ext(e)))
+            idx_ok = any(pr == 'ult' and isidx_(a) and re.search(r'\.k\b', b) and re.search(r'\.m\b', b) for pr, a, b, w, i in T) or \
+                     (any(pr == 'slt' and isidx_(a) and re.search(r'\.k\b', b) and re.search(r'\.m\b', b) for pr, a, b, w, i in T) and
+                      any(isidx_(a) and const_of(b) is not None and ((pr == 'sge' and const_of(b) >= 0) or (pr == 'sgt' and const_of(b) >= -1)) for pr, a, b, w, i in T))
+            bid_ok = any(pr == 'eq' and ((re.search(r'\.backend_id$', strip_ext(a)) and re.search(r'\.common\.id$', strip_ext(b))) or
+                                         (re.search(r'\.backend_id$', strip_ext(b)) and re.search(r'\.common\.id$', strip_ext(a)))) for pr, a, b, w, i in T)
+            ver_ok = any(pr == 'ne' and b == '0' and re.search(r'is_compatible_with\)\(\*arg\d+\.backend_version\)$', strip_ext(a)) for pr, a, b, w, i in T)
+            if idx_ok and bid_ok and ver_ok:
+                r.ok(inst + ' (the index, backend id and version tests are made in place)', loc=g.mod.src, func=g.name)
+            else:
+                miss = [n_ for n_, ok_ in (('idx < k+m (unsigned, or signed with a lower bound)', idx_ok), ('backend id equal', bid_ok), ('backend version compatible', ver_ok)) if not ok_]
+                r.fail(inst, func=g.name, sig='verify_fragment_metadata not consulted', loc=g.mod.src, msg='index/backend checks are skipped: ' + ', '.join(miss))
         need('chksum_mismatch != 1', lambda t: re.match(r'^\*arg\d+\.chksum_mismatch$', strip_ext(t[1])) and
              ((t[0] == 'ne' and t[2] == '1') or (t[0] == 'eq' and t[2] == '0')),
              'chksum_mismatch not tested', 'a fragment with a payload checksum mismatch is accepted')
